@@ -1,16 +1,106 @@
-(* C02 - unshared mutation is in place.  Statements only.
-   (stage 1: the machine and its correspondence; the theorems are added by the later stages) *)
+(* C02 - mutating an unshared collection is in place; a shared one is copied once per extra holder.
+   Only statements here; proofs are `exact` into Rc/Inplace_proofs.v and Rc/Flat_proofs.v.
+
+   The machine (Rc/Heap.v, Rc/Cow.v) counts in `copied` the elements copied by make_mut; locations are never
+   reused, so "no new location" (length (cells h') = length (cells h)) means nothing was re-allocated.
+     same_cost h h'   := copied h' = copied h /\ length (cells h') = length (cells h)
+     upath h cur p    := every cell on the index path p below the handle value cur has strong count 1
+     uniq_flat st x l := variable x is a handle to cell l, a list of scalars with strong count 1
+     noncopy x s      := s is one of  x[i] = n,  x append= n,  x[i] += n,  pop x,  remove x[i]
+
+   General depth (any nesting, any non-slice path, any payload kind): C02_inplace_when_unique, C02_make_mut_cost.
+   Flat fragment only (a list of scalars, paths of depth <= 1; suffix _flat): the other three.  The same statements
+   for nested rows / dicts / op-assign through a path are NOT proved (the Rc-graph correspondence and the
+   allocation measurement cover them); see notes/C02.md. *)
 From Coq Require Import ZArith List Bool.
-From NV Require Import Rc.ValueSem Rc.Heap Rc.Cow.
+From NV Require Import Rc.ValueSem Rc.Heap Rc.Cow Rc.Heap_proofs Rc.Cow_proofs Rc.Inplace_proofs Rc.Flat_proofs.
 Import ListNotations.
 
-(* non-vacuity of the machine: the README's aliased matrix costs exactly one row copy (3 elements)
-   plus one outer copy avoided (the outer list is unique) *)
-Theorem C02_machine_readme_matrix :
-  let row := VList [VInt 0; VInt 0; VInt 0] in
-  copied (mheap (final_cow (init_state 3)
-    [Simple (SAssign 1 [] (ELit row));
-     Simple (SAssign 2 [] (EList [ERead 1 []; ERead 1 []]));
-     Simple (SAssign 2 [PI 1; PI 2] (ELit (VInt 3)))])) = 3.
-Proof. reflexivity. Qed.
-Print Assumptions C02_machine_readme_matrix.
+(* Rc::make_mut costs nothing at strong count 1 and exactly one payload copy otherwise *)
+Theorem C02_make_mut_cost : forall h l h' l' c,
+  get_cell h l = Some c -> make_mut h l = (h', l') ->
+  (cnt c = 1 -> h' = h /\ l' = l) /\
+  (cnt c <> 1 -> copied h' = copied h + length (citems c) /\ l' = length (cells h)).
+Proof. exact make_mut_cost. Qed.
+Print Assumptions C02_make_mut_cost.
+
+(* set_index (x[p] = v, the null-store of drop_lhs, the assign-back of an op-assign) through a path whose cells all
+   have strong count 1: nothing is copied, no location is created, and x still holds the same handle *)
+Theorem C02_inplace_when_unique : forall every p, noslice p = true -> forall new tnew h cur t G h' cur' ok,
+  Inv h ((handles cur ++ handles_opt new) ++ G) -> repr h cur t -> repr_opt h new tnew ->
+  upath h cur p ->
+  m_set every p new h cur = (h', cur', ok) ->
+  same_cost h h' /\ (p <> [] -> same_root cur cur').
+Proof. exact m_set_inplace. Qed.
+Print Assumptions C02_inplace_when_unique.
+
+(* the O(n + k) clause: after `x = [n1, .., nm]`, k statements of the non-copying forms copy 0 elements, create no
+   location, and x stays unaliased at every statement boundary *)
+Theorem C02_unaliased_stays_unique_flat : forall h rs x zs st1 ok ops,
+  nth_error rs x = Some HNull ->
+  m_exec (mkst h rs) (Simple (SAssign x [] (ELit (VList (map VInt zs))))) = (st1, ok) ->
+  Forall (noncopy x) ops ->
+  let l := length (cells h) in
+  uniq_flat st1 x l /\
+  uniq_flat (final_cow st1 ops) x l /\ same_cost (mheap st1) (mheap (final_cow st1 ops)).
+Proof.
+  intros h rs x zs st1 ok ops Hx E NC l.
+  destruct (decl_flat h rs x zs st1 ok Hx E) as [U _]. split; auto. apply noncopy_run; auto.
+Qed.
+Print Assumptions C02_unaliased_stays_unique_flat.
+
+Theorem C02_noncopy_step_flat : forall x l st s st' ok,
+  uniq_flat st x l -> noncopy x s -> m_exec st s = (st', ok) ->
+  uniq_flat st' x l /\ same_cost (mheap st) (mheap st').
+Proof. exact noncopy_step. Qed.
+Print Assumptions C02_noncopy_step_flat.
+
+(* a list shared with k-1 other holders: the first mutation through x copies it exactly once; x then owns a fresh
+   unaliased copy (so by the theorem above every later mutation is in place), the other holders' cell keeps its
+   items and has one reference less *)
+Theorem C02_copy_once_per_holder_flat : forall h rs x l c z v st' ok,
+  nth_error rs x = Some (HRef l None) -> get_cell h l = Some c -> 2 <= cnt c -> ckind c = KList ->
+  Forall (fun kv => handles (snd kv) = []) (citems c) ->
+  m_exec (mkst h rs) (Simple (SAssign x [PI z] (ELit (VInt v)))) = (st', ok) ->
+  let l' := length (cells h) in
+  uniq_flat st' x l' /\
+  copied (mheap st') = copied h + length (citems c) /\
+  length (cells (mheap st')) = S (length (cells h)) /\
+  (exists c', get_cell (mheap st') l = Some c' /\ cnt c' = cnt c - 1 /\ citems c' = citems c).
+Proof. exact copy_once_flat. Qed.
+Print Assumptions C02_copy_once_per_holder_flat.
+
+(* why drop_lhs exists: reading x for `x f= e` gives the list a second handle; after drop_lhs the operator's
+   argument has strong count 1 and its make_mut is the identity; without drop_lhs that make_mut copies the list *)
+Theorem C02_opassign_drop_restores_uniqueness_flat : forall h l c,
+  get_cell h l = Some c -> cnt c = 1 ->
+  let h_read := clone_val h (HRef l None) in
+  let h_dropped := drop_val h_read (HRef l None) in
+  cnt_of h_read l = 2 /\ cnt_of h_dropped l = 1 /\
+  make_mut h_dropped l = (h_dropped, l) /\
+  copied (fst (make_mut h_read l)) = copied h + length (citems c).
+Proof. exact opassign_drop_restores_uniqueness_flat. Qed.
+Print Assumptions C02_opassign_drop_restores_uniqueness_flat.
+
+(* ... and in the run of `x append= n` itself the result is in place *)
+Theorem C02_append_in_place_flat : forall h rs x l c v st' ok,
+  nth_error rs x = Some (HRef l None) -> get_cell h l = Some c -> cnt c = 1 -> ckind c = KList ->
+  Forall (fun kv => handles (snd kv) = []) (citems c) ->
+  m_exec_s (mkst h rs) (SOp x [] BAppend (ELit (VInt v))) = (st', ok) ->
+  uniq_flat st' x l /\ same_cost h (mheap st') /\ ok = true.
+Proof. intros. eapply exec_append_flat; eauto. Qed.
+Print Assumptions C02_append_in_place_flat.
+
+(* non-vacuity: 3 elements, 4 in-place mutations cost 0; after aliasing, one copy of 4 elements, then 0 again;
+   the nested README matrix costs one row *)
+Example C02_nonvacuous :
+  let decl := Simple (SAssign 1 [] (ELit (VList [VInt 0; VInt 0; VInt 0]))) in
+  let muts := [Simple (SOp 1 [] BAppend (ELit (VInt 7))); Simple (SAssign 1 [PI 0] (ELit (VInt 5)));
+               Simple (SOp 1 [PI 1] BPlus (ELit (VInt 2))); Simple (SMod None 1 (LPop []))] in
+  copied (mheap (final_cow (init_state 3) (decl :: muts))) = 0 /\
+  copied (mheap (final_cow (init_state 3) (decl :: muts ++ [Simple (SOp 1 [] BAppend (ELit (VInt 7)));
+                                                            Simple (SAssign 2 [] (ERead 1 []))] ++ muts))) = 4 /\
+  copied (mheap (final_cow (init_state 3) (decl :: muts ++ [Simple (SOp 1 [] BAppend (ELit (VInt 7)));
+                                                            Simple (SAssign 2 [] (ERead 1 []))] ++ muts ++ muts))) = 4 /\
+  Forall (noncopy 1) muts.
+Proof. repeat split; try reflexivity. repeat constructor. Qed.
